@@ -98,3 +98,19 @@ Definition dsa_textbook (G : group) (y m r s : Z) : bool :=
 (* the values a correct DSS signing run reconstructs: r = (g^(k^-1) mod p) mod q, s = k (m + x r) mod q *)
 Definition dss_r (G : group) (kinv : Z) : Z := (powm (gg G) kinv (gp G)) mod gq G.
 Definition dss_s (q k m x r : Z) : Z := (k * ((m + x * r) mod q)) mod q.
+
+(* Lagrange interpolation at 0 as GennaroJareckiKrawczykRabinDKG::Reconstruct computes it
+   (GennaroJareckiKrawczykRabinDKG.cc:1193-1224) from the points (x_j, y_j), x_j = index + 1:
+   lambda_j = prod_{l <> j} x_l * (prod_{l <> j} (x_l - x_j))^-1 mod q; z = sum lambda_j y_j mod q.
+   None = the denominator is not invertible (the function returns false). *)
+Definition lag_coeff (q : Z) (xs : list Z) (xj : Z) : option Z :=
+  let others := filter (fun x => negb (x =? xj)) xs in
+  let num := fold_left (fun a x => a * x) others 1 in
+  let den := fold_left (fun a x => a * (x - xj)) others 1 in
+  match invm den q with Some iv => Some ((num * iv) mod q) | None => None end.
+
+Definition interp0 (q : Z) (pts : list (Z * Z)) : option Z :=
+  let xs := map fst pts in
+  fold_left (fun acc p => match acc, lag_coeff q xs (fst p) with
+                          | Some a, Some l => Some ((a + (l * snd p) mod q) mod q)
+                          | _, _ => None end) pts (Some 0).
